@@ -181,6 +181,14 @@ func H_C19_copy() {
 	c, err := Map(m).Copy()
 	vAssert(err == nil, "copy: succeeds for JSON types")
 	vAssert(vDeepEq(m, map[string]interface{}(c)), "copy: the copy is deeply equal to the original")
+	// a Map decoded with JsonUseNumber holds json.Number values; its copy holds them too
+	JsonUseNumber = true
+	num := []string{"1", "1.10", "12345678901234567890", "-0.5e3"}[vChoose(4)]
+	mn, nerr := NewMapJson([]byte("{\"n\":" + num + ",\"l\":[" + num + ",\"s\"]}"))
+	cn, cerr := mn.Copy()
+	JsonUseNumber = false
+	vAssert(nerr == nil && cerr == nil, "copy: a Map with json.Number values is copied without error")
+	vAssert(vDeepEq(map[string]interface{}(mn), map[string]interface{}(cn)), "copy: under JsonUseNumber the copy holds the same json.Number values")
 	vCover("copy")
 }
 
